@@ -7,7 +7,8 @@ with the model's client arithmetic (Idem.client_job_id / client_group_id) and wi
 create_one_group assign to the very specs those classes produced.
 Proof: coq/theories/BatchDB/{StepFrame,Cancel,Idem}.v over the frozen model BatchDB/Model.v; theorems in Props_C09.v.
 Oracle: harness/batchdb/oracles.py::c09 (ranges contiguous after every op, a re-sent accepted request changes nothing and
-create_batch / create_update answer identically, ids of inserted jobs = start + relative - 1).
+create_batch / create_update answer identically, ids of inserted jobs = start + relative - 1) + the client half on the
+real aioclient classes (the id a Job / JobGroup object holds after Batch.submit() = start + relative - 1 of the spec it sent).
 """
 from harness import core
 from harness.core import Corr, Disagreement
@@ -48,8 +49,7 @@ ASSUMPTIONS = family.COMMON_ASSUMPTIONS + [
     'none of Legal.v is used: every C09 theorem holds for arbitrary transactions (the invariants are proved with run_invariant)',
 ]
 
-oracle = family.oracle_for(ID)
-replay = family.replay
+_family_oracle = family.oracle_for(ID)
 
 HEADER = 'From HailV Require Import Common.Prelude BatchDB.Model BatchDB.StepFrame BatchDB.Cancel BatchDB.Idem.\nOpen Scope Z_scope.\n'
 
@@ -147,3 +147,47 @@ def correspond(ctx) -> Corr:
     c = family.correspond(ctx)
     c.merge(_client_smoke(ctx))
     return c
+
+
+def _client_oracle(ctx, cases):
+    """The statement on the implementation only: the id a client object holds after Batch.submit() is the id the server
+    assigns to the spec that object produced (start + relative - 1, what oracles.c09 checks on the server side)."""
+    from harness.core import Failure
+    res = ctx.run_impl('c09_client_ids.py', {'cases': cases}, timeout=300)['results']
+    fails, n = [], 0
+    seen = set()
+    for case, r in zip(cases, res):
+        if 'err' in r:
+            key = 'C09:client-classes-crashed'
+            if key not in seen:
+                seen.add(key)
+                fails.append(Failure(key, f'{key}: {r["err"]}'[:400], {'client_case': case}, None, r['err']))
+            continue
+        for ui, (upd, got) in enumerate(zip(case['updates'], r['ok'])):
+            for kind, specs, ids, start, field in (('job', got['job_specs'], got['client_job_ids'], upd['start_job'], 'job_id'),
+                                                   ('group', got['group_specs'], got['client_group_ids'], upd['start_group'], 'job_group_id')):
+                for spec, cid in zip(specs, ids):
+                    n += 1
+                    want = start + spec[field] - 1
+                    if cid != want:
+                        key = f'C09:client-id-differs-from-server-id:{kind}'
+                        if key not in seen:
+                            seen.add(key)
+                            detail = {'update': ui, 'start': start, 'relative': spec[field], 'server_assigns': want, 'client_holds': cid}
+                            fails.append(Failure(key, f'{key}: {detail}'[:400], {'client_case': case}, want, cid))
+    return fails, n
+
+
+def oracle(ctx, budget):
+    fails, stats = _family_oracle(ctx, budget)
+    cfails, n = _client_oracle(ctx, _cases(ctx))
+    stats.setdefault('histograms', {})['oracle_C09_client_specs'] = {'specs': n, 'failures': len(cfails)}
+    return fails + cfails, stats
+
+
+def replay(ctx, doc):
+    case = doc.get('case') or {}
+    if isinstance(case, dict) and 'client_case' in case:
+        fails, n = _client_oracle(ctx, [case['client_case']])
+        return {'client_case': case['client_case'], 'specs': n, 'oracle': [f.key for f in fails]}
+    return family.replay(ctx, doc)
